@@ -68,7 +68,7 @@ CLAIMS.update({
                 text="Exploration: thousands of generated machines written as sysfs trees (one in six with the pre-5.3 attribute names only); every accessor of the discovered system is compared with the generating model; for several configurations per machine the real topology-aware backend is set up (directly, or by Reconfigure() on a backend set up with the previous configuration) and its pool tree (root, levels, CPU splits, memory attachment incl. CPU-less PMEM/HBM nodes) is compared with the documented shape.",
                 ref="DESIGN.md §4 C16"),
     "C17": dict(engine="agent", note="Trusted base: the Go toolchain; the in-package test driver (fake ConfigInterface, recorder callback). The watch plumbing is not driven: events are fed to the agent's two update functions exactly as the select loop of Agent.Start calls them.",
-                technique="runtime monitoring: exhaustive event-sequence enumeration to depth 5/6 with trace invariants and a doc-derived reference state machine",
+                technique="runtime monitoring: exhaustive event-sequence enumeration to depth 5/7 with trace invariants and a doc-derived reference state machine",
                 text="Exploration, exhaustive up to the stated depth: every sequence of watch events over a 15-event alphabet is fed to a fresh Agent; after every event the notify/patch trace is checked against precedence, fallback, re-delivery suppression and validation invariants.",
                 ref="DESIGN.md §4 C17"),
     "C18": dict(engine="lib", note=LIB_NOTE + " Side plugins: in-package test drivers (overlay) calling the real CreateContainer/StartContainer/parseEpcLimit; reference resolvers written from docs/memory/*.md.",
